@@ -25,7 +25,8 @@ DefaultOpts == [special |-> DefaultSpecial,
                 collapse |-> FALSE,        \* WithCollapseConsecutiveSlashes
                 singlePct |-> FALSE,       \* WithPercentEncodeSinglePercentSign
                 skipDrive |-> FALSE,       \* WithSkipWindowsDriveLetterNormalization
-                skipTrail |-> FALSE]       \* WithSkipTrailingSlashNormalization
+                skipTrail |-> FALSE,       \* WithSkipTrailingSlashNormalization
+                preHost |-> "none"]        \* WithPreParseHostFunc: "none" | "gsb" (trim dots, collapse dot runs) | "semantic" (same; empty -> 0.0.0.0)
 
 IsSpecialO(o, sch) == sch \in DOMAIN o.special
 DefaultPortO(o, sch) == IF sch \in DOMAIN o.special THEN o.special[sch] ELSE None
@@ -82,6 +83,20 @@ Sp(s) == IsSpecialO(s.opts, s.u.scheme)
 SpecialBackslash(s, c) == Sp(s) /\ c = 92
 B(s) == Get(s.base)
 CleanPort(o, u) == IF u.port # None /\ u.port = DefaultPortO(o, u.scheme) THEN [u EXCEPT !.port = None] ELSE u
+
+(* the host functions of the two predefined experimental profiles (canonicalizer/profiles.go) *)
+RECURSIVE TrimDotsL(_)
+TrimDotsL(h) == IF h # <<>> /\ Head(h) = 46 THEN TrimDotsL(Tail(h)) ELSE h
+RECURSIVE TrimDotsR(_)
+TrimDotsR(h) == IF h # <<>> /\ Last(h) = 46 THEN TrimDotsR(Front(h)) ELSE h
+RECURSIVE SqueezeDots(_)
+SqueezeDots(h) == IF Len(h) < 2 THEN h ELSE IF h[1] = 46 /\ h[2] = 46 THEN SqueezeDots(Tail(h)) ELSE <<h[1]>> \o SqueezeDots(Tail(h))
+PreHost(o, h) == IF o.preHost = "none" \/ h = <<>> THEN h
+                 ELSE LET t == SqueezeDots(TrimDotsR(TrimDotsL(h))) IN
+                      IF t = <<>> /\ o.preHost = "semantic" THEN <<48, 46, 48, 46, 48, 46, 48>> ELSE t
+(* parseHost: the host function runs first; an empty result is the empty host *)
+ParseHostO(o, buf, isOpaque, idna) ==
+  LET h == PreHost(o, buf) IN IF h = <<>> THEN HostOk(<<>>, None, "empty") ELSE ParseHost(h, isOpaque, idna)
 
 StSchemeStart(s, c) ==
   IF IsAlpha(c) THEN [s EXCEPT !.buf = Append(@, Lower(c)), !.st = "scheme"]
@@ -170,14 +185,14 @@ StHost(s, c) ==
   ELSE IF c = 58 /\ ~s.br THEN
     IF s.buf = <<>> THEN Fail(s)
     ELSE IF s.ov = "hostname" THEN Ret(s)
-    ELSE LET h == ParseHost(s.buf, ~Sp(s), s.idna) IN
+    ELSE LET h == ParseHostO(s.opts, s.buf, ~Sp(s), s.idna) IN
          IF ~h.ok THEN Fail([s EXCEPT !.asked = h.asked])
          ELSE [s EXCEPT !.u.host = Some(h.host), !.buf = <<>>, !.st = "port", !.asked = h.asked]
   ELSE IF c = EOF \/ c \in {47, 63, 35} \/ SpecialBackslash(s, c) THEN
     LET s0 == Back(s) IN
     IF Sp(s) /\ s.buf = <<>> THEN Fail(s0)
     ELSE IF Ov(s) /\ s.buf = <<>> /\ (HasCreds(s.u) \/ IsSome(s.u.port)) THEN Ret(s0)
-    ELSE LET h == ParseHost(s.buf, ~Sp(s), s.idna) IN
+    ELSE LET h == ParseHostO(s.opts, s.buf, ~Sp(s), s.idna) IN
          IF ~h.ok THEN Fail([s0 EXCEPT !.asked = h.asked])
          ELSE LET s1 == [s0 EXCEPT !.u.host = Some(h.host), !.buf = <<>>, !.st = "pathStart", !.asked = h.asked]
               IN IF Ov(s) THEN Ret(s1) ELSE s1
@@ -230,7 +245,7 @@ StFileHost(s, c) ==
     IF ~Ov(s) /\ IsWinLetter(s.buf) THEN [s0 EXCEPT !.st = "path"]
     ELSE IF s.buf = <<>> THEN
       LET s1 == [s0 EXCEPT !.u.host = Some(<<>>)] IN IF Ov(s) THEN Ret(s1) ELSE [s1 EXCEPT !.st = "pathStart"]
-    ELSE LET h == ParseHost(s.buf, ~Sp(s), s.idna) IN
+    ELSE LET h == ParseHostO(s.opts, s.buf, ~Sp(s), s.idna) IN
       IF ~h.ok THEN Fail([s0 EXCEPT !.asked = h.asked])
       ELSE LET hh == IF h.host = LOCALHOST THEN <<>> ELSE h.host
                s1 == [s0 EXCEPT !.u.host = Some(hh), !.asked = h.asked]
